@@ -136,7 +136,10 @@ def gen_linear_exact(rng):
     if r < 0.35:
         return (sx, 0.0, 0.0, sy), "st"
     if r < 0.45:
-        return (sx, 2.0**-40 * rng.choice([0, 1, -1]), 2.0**-40 * rng.choice([0, 1, -1]), sy), "st-tiny-shear"
+        # shear below the 1e-10 tolerance of is_affine_st; narrow exponent range keeps every product exact
+        sx = rng.choice([-1, 1]) * pow2(rng, -2, 2)
+        sy = rng.choice([-1, 1]) * pow2(rng, -2, 2)
+        return (sx, 2.0**-36 * rng.choice([0, 1, -1]), 2.0**-36 * rng.choice([0, 1, -1]), sy), "st-tiny-shear"
     if r < 0.6:
         return (0.0, sy, sx, 0.0), "rot90"
     if r < 0.85:
@@ -157,6 +160,8 @@ def gen_translation_exact(rng):
 def gen_gbox_exact(rng, GB, Affine, nmax=64, allow_zero=False):
     (a, b, d, e), cls = gen_linear_exact(rng)
     c, f = gen_translation_exact(rng)
+    if cls == "st-tiny-shear":
+        c, f = rng.randint(-64, 64) / 64.0, rng.randint(-16, 16) / 16.0
     tag = rng.choice([0, 1, 2, 3])
     shape = gen_shape(rng, nmax, allow_zero)
     return GB.GeoBox(shape, Affine(a, b, c, d, e, f), CRS_TAGS[tag]), cls
@@ -474,10 +479,17 @@ class Ops:
                     lambda cx, g, g2, args: check_contract(cx, op, g, g2, args, T=fa_tr(nx // 2, ny // 2), shape=(1, 1)))
         if op in ("mul", "rmul"):
             if exact:
-                (a, b, d, e), _ = gen_linear_exact(rng)
+                (a, b, d, e), tcls = gen_linear_exact(rng)
+                while tcls == "st-tiny-shear":
+                    (a, b, d, e), tcls = gen_linear_exact(rng)
+                Ag = fa(g._affine)
+                if F(2) ** -36 in (abs(Ag[1]), abs(Ag[3])):
+                    # parent with a sub-tolerance shear: keep the product exact with a small axis-aligned T
+                    a, b, d, e = rng.choice([-1, 1]) * pow2(rng, -1, 1), 0.0, 0.0, rng.choice([-1, 1]) * pow2(rng, -1, 1)
                 k = 2.0 ** rng.randint(-2, 2) / max(abs(a), abs(b), abs(d), abs(e))
                 k = 2.0 ** round(math.log2(k))
-                T = Affine(a * k, b * k, rng.randint(-4096, 4096) / 16.0, d * k, e * k, rng.randint(-4096, 4096) / 16.0)
+                tmax = 64 if F(2) ** -36 in (abs(Ag[1]), abs(Ag[3])) else 4096
+                T = Affine(a * k, b * k, rng.randint(-tmax, tmax) / 16.0, d * k, e * k, rng.randint(-tmax, tmax) / 16.0)
             else:
                 T = Affine.translation(rng.uniform(-50, 50), rng.uniform(-50, 50)) * Affine.rotation(rng.uniform(-180, 180)) * \
                     Affine.scale(rng.uniform(0.2, 5), rng.uniform(0.2, 5))
